@@ -158,6 +158,8 @@ def exercise(case):
                     key, kind, rows = rows_of(sel, im["n"])
                     ld = {"sel": list(sel), "kind": kind, "rows": rows}
                     tracefs.take_log()
+                    if case.get("bigread_limit") and fsname == "vtrace":
+                        tracefs.BIGREAD[f"{tracefs.norm(url)}/{im['name']}"] = [case["bigread_limit"], 0]
                     if case.get("flaky_load") and fsname == "vtrace":
                         fl = case["flaky_load"]
                         tracefs.arm_fault(url, im["name"], op="read", nth=fl.get("nth", 1), consume=fl.get("consume", 0.5))
@@ -188,6 +190,8 @@ def exercise(case):
                         ld["outcome"] = "error"
                         ld["msg"] = f"{type(e).__name__}: {e}"[:200]
                     ld["fault_fired"] = bool(tracefs.clear_flaky())
+                    if case.get("bigread_limit") and fsname == "vtrace":
+                        ld["fault_fired"] = ld["fault_fired"] or tracefs.BIGREAD.pop(f"{tracefs.norm(url)}/{im['name']}", [0, 0])[1] > 0
                     ld["events"] = tracefs.take_log() if fsname == "vtrace" else []
                     rec["loads"].append(ld)
         finally:
